@@ -568,6 +568,8 @@ namespace c14
                 op = "ctor_initlist";
                 if constexpr (Api::initlist)
                 {
+                    if (a.size() > 16)
+                        a.resize(16); // the literal initializer lists of this harness go up to 16 elements
                     if (a.size() > N && known_active(K_INITLIST))
                     {
                         c.known_hit(K_INITLIST);
@@ -845,7 +847,24 @@ namespace c14
 
     template <template <class, std::size_t> class SV, class T, class Api> void vec_target(Src &s, Case &c)
     {
-        size_t which = s.below(5);
+        // mostly small capacities; now and then the capacities around a byte-sized counter
+        // (255, 256, 257: "for all capacities N >= 1")
+        // (decoded from the one byte that used to pick among the five small capacities, so that
+        // earlier replay files keep their meaning)
+        size_t b = s.u8();
+        if (b >= 238)
+        {
+            size_t big = b % 3;
+            c.label(big == 0 ? "N=255" : big == 1 ? "N=256" : "N=257");
+            if (big == 0)
+                VecRun<SV, T, 255, Api>(s, c).run();
+            else if (big == 1)
+                VecRun<SV, T, 256, Api>(s, c).run();
+            else
+                VecRun<SV, T, 257, Api>(s, c).run();
+            return;
+        }
+        size_t which = b % 5;
         c.label(N_LABEL[which]);
         switch (which)
         {
@@ -1236,7 +1255,17 @@ namespace c14
 
     template <template <std::size_t> class SS, class Api> void str_target(Src &s, Case &c)
     {
-        size_t which = s.below(6);
+        size_t b = s.u8();
+        if (b >= 244)
+        {
+            c.label(b % 2 ? "N=255" : "N=256");
+            if (b % 2)
+                StrRun<SS, 255, Api>(s, c).run();
+            else
+                StrRun<SS, 256, Api>(s, c).run();
+            return;
+        }
+        size_t which = b % 6;
         c.label(N_LABEL[which]);
         switch (which)
         {
